@@ -125,6 +125,11 @@ func (g *StressGen) Build() string {
 		return "function f(n) { foreach x in [1] { f(n + 1); } } f(0); return 1;"
 	case "recursion-void":
 		return "function f() { f(); } f(); return 1;"
+	case "recursion-by-field":
+		// runs away for an object with Count <= 0, terminates for the good object (Count 3)
+		return "function f(n) { if (n <= 0) { return 0; } return f(n - Count); } return f(3);"
+	case "fault-by-field":
+		return "function g(a) { if (Count < 1) { panic(\"no\"); } return a % Count; } function f(a) { return g(a) + 1; } return f(7);"
 	}
 	panic("unknown shape " + g.Shape)
 }
@@ -132,7 +137,7 @@ func (g *StressGen) Build() string {
 var stressShapes = []string{"paren", "square", "brace", "minus", "bang", "sqrt", "if", "elseif", "while", "foreach", "function", "switch",
 	"chain+", "chain&&", "chain..", "chainstr", "index", "dot", "call", "callargs", "array", "hash", "statements", "exprstatements", "comments", "semicolons",
 	"open-paren", "open-square", "open-brace", "open-if", "open-call", "close-only", "ternary-chain", "ternary-cond", "assign-chain",
-	"longident", "longstring", "longnumber", "longregexp", "prefix-mix", "recursion", "mutual-recursion", "recursion-in-loop", "recursion-void"}
+	"longident", "longstring", "longnumber", "longregexp", "prefix-mix", "recursion", "mutual-recursion", "recursion-in-loop", "recursion-void", "recursion-by-field", "fault-by-field"}
 
 // CrashCase is one no-crash case.
 type CrashCase struct {
@@ -186,6 +191,28 @@ var oddObjects = map[string]func() interface{}{
 	"embedded":          func() interface{} { return &oddEmbedded{embeddedInner{1, "in"}, 2} },
 	"map[string]string": func() interface{} { return map[string]string{"Name": "x"} },
 	"map[int]int":       func() interface{} { return map[int]int{1: 2} },
+	"cyclic-map": func() interface{} {
+		m := map[string]interface{}{"Name": "n", "Count": 1}
+		m["self"] = m
+		m["A0"] = m
+		return m
+	},
+	"cyclic-through-slice": func() interface{} {
+		m := map[string]interface{}{"Name": "n"}
+		m["A0"] = []interface{}{1, m}
+		m["H0"] = map[string]interface{}{"back": m}
+		return m
+	},
+	"deep-map": func() interface{} {
+		root := map[string]interface{}{"Name": "n"}
+		cur := root
+		for i := 0; i < 200000; i++ {
+			next := map[string]interface{}{"v": i}
+			cur["H0"] = next
+			cur = next
+		}
+		return root
+	},
 	"odd-map-values": func() interface{} {
 		return map[string]interface{}{"Name": uint8(3), "A0": []interface{}{nil, map[string]interface{}{"a": nil}}, "C0": func() {}, "g0": make(chan int)}
 	},
@@ -244,6 +271,21 @@ func runCrashCase(part string, c *CrashCase) (outcome string, err error) {
 			if err != nil {
 				return "", err
 			}
+		}
+	}
+	// "the evaluator remains usable afterwards": the good object is answered
+	// the way a fresh evaluator answers it (value vs error)
+	good := objs[len(objs)-1]
+	used := r.Execute(good)
+	fresh := eng.NewRunner(script)
+	fresh.E.SetContext(ctx)
+	if ferr, fpan := fresh.Prepare(false); ferr == nil && fpan == nil {
+		fr := fresh.Execute(good)
+		if used.Panic != nil || fr.Panic != nil {
+			return "", fmt.Errorf("panic escaped on the good object: used=%v fresh=%v", used.Panic, fr.Panic)
+		}
+		if !isTimeout(used.Err) && !isTimeout(fr.Err) && (used.Err == nil) != (fr.Err == nil) {
+			return "", fmt.Errorf("after the faulty runs the evaluator answers a good object with err=%v, a fresh evaluator with err=%v", used.Err, fr.Err)
 		}
 	}
 	return outcome, nil
@@ -365,6 +407,13 @@ func TestC08Random(t *testing.T) {
 				c.Obj = &o
 			}
 		}
+		if (c.Obj != nil || c.Odd != "") && gen.Uniform(rt, "elementscript", 3) == 0 {
+			// hand a member of a (possibly unconvertible) field straight back
+			f := rapid.SampledFrom([]string{"Name", "Count", "A0", "A1", "H0", "C0", "C1", "g0", "s0", "self"}).Draw(rt, "elfield")
+			c.Script = rapid.SampledFrom([]string{"return F[0];", "x = F[1]; return x;", "foreach p in F { return p; }", "return F ? F[0] : F;", "return F.a;", "return [F[0], F];", "foreach k, p in F { if (k) { return p; } } return F;"}).Draw(rt, "elscript")
+			c.Script = strings.ReplaceAll(c.Script, "F", f)
+			c.Hex = false
+		}
 		outcome, err := runCrashCase("random", c)
 		if err != nil {
 			c.Msg = err.Error()
@@ -402,7 +451,8 @@ func TestC08Stress(t *testing.T) {
 	}
 	si, sn := shardIndex()
 	k := 0
-	deepQuick := map[string]bool{"paren": true, "minus": true, "bang": true, "open-paren": true, "prefix-mix": true, "elseif": true, "chain&&": true, "index": true, "call": true, "if": true}
+	_ = 0
+	deepQuick := map[string]bool{"comments": true, "paren": true, "minus": true, "bang": true, "open-paren": true, "prefix-mix": true, "elseif": true, "chain&&": true, "index": true, "call": true, "if": true}
 	for _, shape := range stressShapes {
 		ss := sizes
 		if !thorough() && deepQuick[shape] {
@@ -417,7 +467,13 @@ func TestC08Stress(t *testing.T) {
 			if len(g.Build()) > 8<<20 {
 				g.N = n / 4
 			}
+			if shape == "comments" && n >= 2000000 {
+				g.N = 6000000 // 30 MB of nothing but comments
+			}
 			c := &CrashCase{Prop: "C08", Kind: "stress", Gen: g}
+			if strings.HasSuffix(shape, "-by-field") {
+				c.Obj = &eng.GoObjSpec{Mode: "map", Fields: []eng.GoField{{Name: "Count", Kind: "int", V: lang.Int(0)}}}
+			}
 			start := time.Now()
 			outcome, err := runCrashCase("stress", c)
 			if err != nil {
